@@ -73,6 +73,10 @@ pub enum StdinKind {
     /// Delivered only after the stdout consumer has read its k bytes and closed
     /// (only meaningful with StdoutKind::CloseAfter).
     BytesAfterConsumerLeft(Vec<u8>),
+    /// Standard input is a regular file holding these bytes, with its file
+    /// offset already advanced to the given position (as after a shell's
+    /// `(head -c N >/dev/null; xt) < file`).
+    FileAtOffset(Vec<u8>, u64),
 }
 
 pub struct Run<'a> {
@@ -190,6 +194,18 @@ pub fn run(r: Run) -> ProcOut {
         StdinKind::Bytes(_) | StdinKind::BytesAfterConsumerLeft(_) => {
             cmd.stdin(Stdio::piped());
         }
+        StdinKind::FileAtOffset(b, off) => {
+            use std::io::{Seek, SeekFrom};
+            let p = r.cwd.join(format!(".stdin-{}", SCRATCH_N.fetch_add(1, Ordering::Relaxed)));
+            let opened = std::fs::write(&p, b).and_then(|_| File::open(&p)).and_then(|mut f| f.seek(SeekFrom::Start(*off)).map(|_| f));
+            let _ = std::fs::remove_file(&p);
+            match opened {
+                Ok(f) => {
+                    cmd.stdin(Stdio::from(f));
+                }
+                Err(e) => return ProcOut { status: Status::SpawnError(e.to_string()), stdout: vec![], stderr: vec![] },
+            }
+        }
     }
     let mut pty_master: Option<RawFd> = None;
     let mut out_file: Option<PathBuf> = None;
@@ -273,7 +289,7 @@ pub fn run(r: Run) -> ProcOut {
                 let _ = si.write_all(&b);
             }))
         }
-        StdinKind::Null => None,
+        StdinKind::Null | StdinKind::FileAtOffset(..) => None,
     };
     // stderr reader
     let mut se = child.stderr.take().unwrap();
